@@ -508,7 +508,7 @@ def shard(args):
 
 def run(ctx):
     q = ctx.tier == 'quick'
-    shards = [{'shard': i, 'tiny': 3 if q else 60, 'walks': 3 if q else 80,
+    shards = [{'shard': i, 'tiny': 2 if q else 60, 'walks': 2 if q else 80,
                'confirm': 3 if q else 12, 'w3': 2 if q else 20}
               for i in range(common.NCPU)]
     results = common.run_shards('checks.c03', shards, timeout=3500)
